@@ -48,12 +48,13 @@ def confirm(wt, name):
     print("stored", dst)
     return 0
 
-SBX_V, SBX_R = "/tmp/sbx/verif", "/tmp/sbx/repo"
+SBX = os.environ.get("SBX_DIR", "/tmp/sbx")
+SBX_V, SBX_R = SBX + "/verif", SBX + "/repo"
 
 def sandbox():
     """a copy of /verif whose harness and CLI build from a scratch worktree of /repo: seeded changes can be tried
     without touching /repo (and without overwriting /verif/evidence); removed with `tools/seed.py sandbox-rm`"""
-    os.makedirs("/tmp/sbx", exist_ok=True)
+    os.makedirs(SBX, exist_ok=True)
     if not os.path.exists(SBX_R):
         rc, out = sh("git -C /repo worktree add --detach %s HEAD" % SBX_R)
         assert rc == 0, out
@@ -100,5 +101,5 @@ if __name__ == "__main__":
     if sys.argv[1] == "confirm":
         sys.exit(confirm(sys.argv[2], sys.argv[3]))
     if sys.argv[1] == "sandbox-rm":
-        sh("git -C /repo worktree remove --force %s" % SBX_R); sh("rm -rf /tmp/sbx"); sh("git -C /repo worktree prune"); sys.exit(0)
+        sh("git -C /repo worktree remove --force %s" % SBX_R); sh("rm -rf %s" % SBX); sh("git -C /repo worktree prune"); sys.exit(0)
     sys.exit(try_(sys.argv[2], sys.argv[3:], sbx=(sys.argv[1] == "sbx")))
